@@ -10,7 +10,7 @@
      gauge{listener,active}        downstream_request_active of a listener after all its poisoned connections were closed
      wedged{heap_mb}               the process stopped making progress / its heap exploded (driver bails out)
      alive{}                       end of run: the process is still there *)
-EXTENDS Containment, VTrace, Sequences
+EXTENDS Containment, VTrace
 
 tvars == <<vars, l>>
 
@@ -49,8 +49,13 @@ TGauge == /\ IsEvent("gauge")
 TWedged == /\ IsEvent("wedged") /\ Expect(FALSE, "proxy-wedged") /\ UNCHANGED vars
 TAlive == /\ IsEvent("alive") /\ Expect(alive, "process-died") /\ UNCHANGED vars
 
+(* batchalloc{bytes,poisons}: what the process allocated while all poisons were handled (none is longer than 70 KB);
+   alloc{c,name,proto,bytes}: the same for one poison sent alone (only recorded when the batch was over the bound) *)
+TBatchAlloc == /\ IsEvent("batchalloc") /\ Expect(Ev.bytes <= 268435456, "memory-for-announced-lengths") /\ UNCHANGED vars
+TAlloc == /\ IsEvent("alloc") /\ Expect(Ev.bytes <= 67108864, "alloc-before-arrival") /\ UNCHANGED vars
+
 TNote == IsEvent("note") /\ UNCHANGED vars
 
-TraceNext == TNote \/ TOpen \/ TServe \/ TPoison \/ TSeen \/ TClose \/ TGauge \/ TWedged \/ TAlive
+TraceNext == TNote \/ TBatchAlloc \/ TAlloc \/ TOpen \/ TServe \/ TPoison \/ TSeen \/ TClose \/ TGauge \/ TWedged \/ TAlive
 TraceSpec == TraceInit /\ [][TraceNext]_tvars
 ====
